@@ -46,6 +46,7 @@ theorem deliver_receipts (env : Env) (c : Chain) (now : UInt64) (m : Msg) :
       obtain ⟨cls, he⟩ := updateClient_ok hh; subst he; exact Or.inl rfl
     | createClient chain cl => simp only [handle] at hh; injection hh with hh; subst hh; exact Or.inl rfl
     | registerRelayer r => simp only [handle] at hh; injection hh with hh; subst hh; exact Or.inl rfl
+    | restart => simp only [handle] at hh; injection hh with hh; subst hh; exact Or.inl rfl
   · rw [hd]; exact Or.inl rfl
 
 theorem deliver_receipts_mono (env : Env) (c : Chain) (now : UInt64) (m : Msg) (k : Bytes)
@@ -78,6 +79,7 @@ theorem recv_rejected_of_receipt (env : Env) (c : Chain) (now : UInt64) (m : Msg
     | updateClient chain h root signer ok => simp [recvKeyOf] at hm
     | createClient chain cl => simp [recvKeyOf] at hm
     | registerRelayer r => simp [recvKeyOf] at hm
+    | restart => simp [recvKeyOf] at hm
   · exact hd
 
 /-! ### histories -/
@@ -132,6 +134,7 @@ theorem acceptedCount_bound (env : Env) (k : Bytes) (c : Chain) (ms : List (UInt
           | updateClient chain h root signer ok => simp [recvKeyOf] at hkey
           | createClient chain cl => simp [recvKeyOf] at hkey
           | registerRelayer r => simp [recvKeyOf] at hkey
+          | restart => simp [recvKeyOf] at hkey
         · rw [hkey] at hk'; injection hk' with hk'; subst hk'
           rw [he, Tab.has_set]; simp
       rw [hafter] at ih'
@@ -182,6 +185,7 @@ theorem receipt_after_accept (env : Env) (c : Chain) (ms : List (UInt64 × Msg))
         | updateClient chain h root signer ok => simp [recvKeyOf] at hkey
         | createClient chain cl => simp [recvKeyOf] at hkey
         | registerRelayer r => simp [recvKeyOf] at hkey
+        | restart => simp [recvKeyOf] at hkey
       exact receipts_monotone env _ ms k hafter
     · have hacc' : acceptedRecvOf env k ((deliver env c now m).2, (now, m)) = false := by simpa using hacc
       simp only [hacc'] at hpos
@@ -203,6 +207,26 @@ theorem replay_rejected_later (env : Env) (c : Chain) (ms ms2 : List (UInt64 × 
     deliver env (run env (run env c ms).1 ms2).1 now' m' = ((run env (run env c ms).1 ms2).1, .err) :=
   recv_rejected_of_receipt env _ now' m' k hm'
     (receipts_monotone env _ ms2 k (receipt_after_accept env c ms k hacc))
+
+/-! ### restarts -/
+/-- **restart_preserves**: a node restart (genesis export → JSON → import into an empty store) is the identity on the
+modelled state — every receipt, commitment, acknowledgement, send sequence, client and relayer is re-created under
+the key it had. Any loss in the real round trip therefore shows as a divergence of the differential run. -/
+theorem restart_preserves (env : Env) (c : Chain) (now : UInt64) : deliver env c now .restart = (c, .ok) := rfl
+
+/-- exactly-once over histories that contain restarts: `Msg.restart` is one of the messages the history theorems
+quantify over, so nothing has to be re-proved; stated explicitly for a restart at an arbitrary point. -/
+theorem recv_at_most_once_across_restart (env : Env) (c : Chain) (ms ms2 : List (UInt64 × Msg)) (t : UInt64) (k : Bytes) :
+    (((run env c (ms ++ (t, .restart) :: ms2)).2.zip (ms ++ (t, .restart) :: ms2)).filter (acceptedRecvOf env k)).length ≤ 1 :=
+  recv_at_most_once env c (ms ++ (t, .restart) :: ms2) k
+
+/-- a receive accepted before a restart is still refused — unchanged — after the restart and any further history -/
+theorem replay_rejected_after_restart (env : Env) (c : Chain) (ms ms2 : List (UInt64 × Msg)) (t : UInt64) (k : Bytes)
+    (hacc : 0 < (((run env c ms).2.zip ms).filter (acceptedRecvOf env k)).length)
+    (m' : Msg) (now' : UInt64) (hm' : recvKeyOf env m' = some k) :
+    deliver env (run env (run env c ms).1 ((t, .restart) :: ms2)).1 now' m' =
+      ((run env (run env c ms).1 ((t, .restart) :: ms2)).1, .err) :=
+  replay_rejected_later env c ms ((t, .restart) :: ms2) k hacc m' now' hm'
 
 /-! ### effects -/
 def cbCount (k : Bytes) (c : Chain) : Nat := c.evm.count (.recvCallback k)
@@ -247,6 +271,7 @@ theorem deliver_cbCount (env : Env) (c : Chain) (now : UInt64) (m : Msg) (k : By
     | updateClient chain h root signer ok => obtain ⟨cls, he⟩ := updateClient_ok hh; subst he; left; rfl
     | createClient chain cl => simp only [handle] at hh; injection hh with hh; subst hh; left; rfl
     | registerRelayer r => simp only [handle] at hh; injection hh with hh; subst hh; left; rfl
+    | restart => simp only [handle] at hh; injection hh with hh; subst hh; left; rfl
   · rw [hd]; left; rfl
 
 /-- **effects_at_most_once**: over any history the number of `onRecvPacket` invocations for key `k` grows by at
